@@ -152,6 +152,88 @@ def C19(tier, seed):
         stubs=["numpy ndarray -> SArr (symbolic cells)"])
 
 
+def C12(tier, seed):
+    from harness import importer
+    from .core import Run
+
+    q = tier == "quick"
+    ids3 = [3, 1, 7] if q else [3, 1, 7, 12]
+    nm = {"time": "t", "pos": ["y", "x"]}
+    cols = {"t": "int", "y": "real", "x": "real"}
+    G = [
+        ("renamed+custom", dict(ids=ids3, M=2, columns=dict(cols, c="int"), name_map=dict(nm, c="c"))),
+        ("legacy_yx_keys+column_named_time", dict(ids=[3, 1, 7], M=2,
+                                                   columns={"t": "int", "row": "real", "col": "real", "time": "int"},
+                                                   name_map={"time": "t", "y": "row", "x": "col", "custom": "time"})),
+        ("3d", dict(ids=[5, 2], M=1, columns={"frame": "int", "z": "real", "y": "real", "x": "real"},
+                    name_map={"time": "frame", "pos": ["z", "y", "x"]})),
+        ("stacked_position+loaded_feature", dict(ids=[5, 2], M=1,
+                                                  columns={"frame": "int", "position": "vec2", "area": "real"},
+                                                  name_map={"time": "frame", "pos": "position", "area": "area"},
+                                                  node_features={"area": False})),
+        ("swapped_axes+edge_property", dict(ids=[4, 9, 6], M=2, columns=cols, name_map={"time": "t", "pos": ["x", "y"]},
+                                            edge_columns={"overlap": "real"}, edge_name_map={"iou": "overlap"})),
+        ("sparse_custom_properties", dict(ids=[3, 1], M=1, columns=dict(cols, c="int", u="real", v="real"),
+                                          name_map=dict(nm, c="c", uv=["u", "v"]), sparse=("c", "v"))),
+        ("duplicate_ids", dict(ids=[3, 3, 7], M=1, columns=cols, name_map=nm)),
+        ("no_time_mapping", dict(ids=[3, 1], M=1, columns=cols, name_map={"pos": ["y", "x"]},
+                                 expect_missing_required=True)),
+        ("no_position_mapping", dict(ids=[3, 1], M=1, columns=cols, name_map={"time": "t"},
+                                     expect_missing_required=True)),
+        ("mapping_to_missing_column", dict(ids=[3, 1], M=1, columns=cols, name_map={"time": "t", "pos": ["y", "q"]},
+                                           expect_missing_required=True)),
+    ]
+    ccols = {"id": "id", "parent_id": "parent", "t": "int", "y": "real", "x": "real"}
+    cnm = {"id": "id", "parent_id": "parent_id", "time": "t", "pos": ["y", "x"]}
+    Cv = [
+        ("integer_ids+custom", dict(ids=ids3, columns=dict(ccols, c="int"), name_map=dict(cnm, c="c"))),
+        ("string_ids", dict(ids=["b", "a", "c"], columns=ccols, name_map=cnm)),
+        ("id_zero+column_named_time", dict(ids=[0, 5, 2], columns={"id": "id", "parent_id": "parent", "t": "int",
+                                                                  "y": "real", "x": "real", "time": "int"},
+                                           name_map=dict(cnm, custom="time"))),
+        ("renamed_id_columns:3d", dict(ids=[4, 2], columns={"node": "id", "mother": "parent", "frame": "int", "z": "real",
+                                                            "y": "real", "x": "real"},
+                                       name_map={"id": "node", "parent_id": "mother", "time": "frame",
+                                                 "pos": ["z", "y", "x"]})),
+        ("swapped_axes", dict(ids=[4, 2], columns=ccols, name_map=dict(cnm, pos=["x", "y"]))),
+        ("duplicate_ids", dict(ids=[3, 3, 7], columns=ccols, name_map=cnm)),
+        ("duplicate_string_ids", dict(ids=["a", "a"], columns=ccols, name_map=cnm)),
+        ("no_time_mapping", dict(ids=[3, 1], columns=ccols, name_map={k: v for k, v in cnm.items() if k != "time"},
+                                 expect_missing_required=True)),
+        ("no_id_mapping", dict(ids=[3, 1], columns=ccols, name_map={k: v for k, v in cnm.items() if k != "id"},
+                               expect_missing_required=True)),
+    ]
+    runs = []
+    for name, cfg in G:
+        tags = ("malformed",) if name == "duplicate_ids" else (
+            ("missing_required",) if cfg.get("expect_missing_required") else ("imported", "malformed"))
+        runs.append(Run("import:geff:" + name, importer.geff_harness, cfg, importer.geff_replay, tags,
+                        "store with row ids %s, every set of <= %d links with endpoints over the row ids and one unknown "
+                        "id (duplicates, self links, dangling links included); every cell of every property column an "
+                        "unconstrained integer / real" % (cfg["ids"], cfg.get("M", 2))))
+    for name, cfg in Cv:
+        tags = ("malformed",) if (name.startswith("duplicate") or cfg.get("expect_missing_required")) else (
+            "imported", "malformed")
+        runs.append(Run("import:csv:" + name, importer.csv_harness, cfg, importer.csv_replay, tags,
+                        "table with row ids %s, every row's parent over {each row id, an unknown id, missing, -1 / ''}; "
+                        "every other cell an unconstrained integer / real" % (cfg["ids"],)))
+    return run_property("C12", tier, runs, explanation=R.EXPL, seed=seed, assumptions=[
+        "row ids, link endpoints, column names and the key mapping are concrete per run or decided by engine forks over "
+        "the stated finite sets (ids and links are dict keys / numpy id arrays inside the importer); the cell VALUES of "
+        "time, coordinates and custom properties are unconstrained symbolic integers / reals",
+        "GEFF route: geff_spec.GeffMetadata.read and geff read_to_memory are I/O stubs returning the symbolic store "
+        "restricted to the requested properties (contract of read_to_memory's node_props / edge_props filter); the "
+        "structural validators and geff.construct (networkx backend) are the REAL geff functions",
+        "CSV route: the DataFrame is a cell-wise model (harness/importer.py:_Frame) of the pandas API subset used by "
+        "CSVTracksBuilder.load_source; its agreement with real pandas is checked on concrete tables by the self-test; CSV "
+        "TEXT parsing (pd.read_csv) and zarr decoding are outside the claim; every counterexample is replayed "
+        "through real pandas / a real GEFF store on disk",
+        "no segmentation (relabelling is C13), no track_id / lineage_id columns in the source (C14 territory), "
+        "auto-inferred key mapping is C17"],
+        stubs=["geff read_to_memory / GeffMetadata.read -> symbolic store", "pandas DataFrame -> _Frame model",
+               "infer_dtype_from_array -> declared dtype of the symbolic column"])
+
+
 def C13(tier, seed):
     from harness import relabel
     from .core import Run
@@ -307,6 +389,12 @@ def C18(tier, seed):
             "label array 3 frames x %d cells, labels 0..3 unique across time, symbolic spacing and distance"
             % (2 if q else 3)),
     ]
+    runs.append(Run("points1d:many:M=9", candgraph.points_harness,
+                    dict(M=9, frames=3, dims=1, fixed_t=[0, 0, 0, 1, 1, 1, 2, 2, 2], far=(0, 1, 2)),
+                    candgraph.points_replay, ("built",),
+                    "9 detections in a concrete layout of 3 frames x 3 (node ids up to 8: Python set-order and "
+                    "'fewer than half of the nodes' effects), frame 0 at concrete far positions, the six others "
+                    "symbolic in [0,10], r <= 20, 1-D"))
     if not q:
         runs.append(Run("points3d:M=3", candgraph.points_harness, dict(M=3, frames=3, dims=3),
                         candgraph.points_replay, ("built",), "3 detections in 3 frames, 3 spatial dimensions"))
@@ -444,6 +532,10 @@ def replay_file(prop, path):
         from harness import candgraph
 
         fn = candgraph.points_replay if run.startswith("points") else candgraph.seg_replay
+    elif run.startswith("import:"):
+        from harness import importer
+
+        fn = importer.geff_replay if run.startswith("import:geff") else importer.csv_replay
     elif run.startswith("export:"):
         from harness import export_replay
 
